@@ -26,6 +26,7 @@ func runC01(c *Ctx, r *Report) {
 	c01TSVTables(c, r)
 	c01TSVUse(c, r)
 	c01CSV(c, r)
+	c01CSVWholeFieldWrites(c, r)
 	c01DKVPX(c, r)
 	c01JSON(c, r)
 	c01Void(c, r)
@@ -1287,4 +1288,134 @@ func c01Order(c *Ctx, r *Report) {
 	}
 	r.Floor("R01.8", "record readers", nReaders, 12)
 	r.Floor("R01.8", "record-building functions scanned", nFns, 60)
+}
+
+// c01CSVWholeFieldWrites (R01.3f): the CSV writer sends a field's text to the
+// output whole only where the field needs no quotes; everywhere else it sends
+// special-character-free pieces.
+func c01CSVWholeFieldWrites(c *Ctx, r *Report) {
+	r.Rule("R01.3f", "a field goes out whole only when it needs no quotes: in the CSV writer's field loop, every write of the field's text is either a piece field[:j] cut at the next special character (j from strings.IndexAny / IndexByte / len of that field) or — the field as a whole, alone or inside a concatenation — lies on the edge where fieldNeedsQuotes(field) is false; a fast path that wraps the whole field in quotes skips the doubling of embedded quotes")
+	fn := c.SSAFunc(c.LookupFunc("pkg/output", "RecordWriterCSV.WriteCSVRecordMaybeColorized"))
+	need := c.SSAFunc(c.LookupFunc("pkg/output", "fieldNeedsQuotes"))
+	if fn == nil || fn.Blocks == nil || need == nil {
+		r.Undecided("R01.3f", "WriteCSVRecordMaybeColorized", "", "the CSV writer's field loop or fieldNeedsQuotes was not found")
+		return
+	}
+	// the record parameter ([]string) and values that are (re-slices of) one of its elements
+	var rec *ssa.Parameter
+	for _, p := range fn.Params {
+		if isStrSliceT(p.Type()) {
+			rec = p
+		}
+	}
+	if rec == nil {
+		r.Undecided("R01.3f", "record parameter", "", "no []string parameter")
+		return
+	}
+	var isField func(v ssa.Value, depth int) bool
+	isField = func(v ssa.Value, depth int) bool {
+		if depth > 6 {
+			return false
+		}
+		switch x := v.(type) {
+		case *ssa.UnOp:
+			if x.Op == token.MUL {
+				if ia, ok := x.X.(*ssa.IndexAddr); ok && ia.X == ssa.Value(rec) {
+					return true
+				}
+			}
+		case *ssa.Phi:
+			for _, e := range x.Edges {
+				if isField(e, depth+1) {
+					return true
+				}
+			}
+		case *ssa.Slice:
+			// field[j:] — the remainder is still "the field" for the purposes of whole writes
+			if x.High == nil {
+				return isField(x.X, depth+1)
+			}
+		}
+		return false
+	}
+	var containsField func(v ssa.Value, depth int) bool
+	containsField = func(v ssa.Value, depth int) bool {
+		if isField(v, 0) {
+			return true
+		}
+		if bo, ok := v.(*ssa.BinOp); ok && bo.Op == token.ADD && depth < 6 {
+			return containsField(bo.X, depth+1) || containsField(bo.Y, depth+1)
+		}
+		return false
+	}
+	n := 0
+	for _, b := range fn.Blocks {
+		for _, in := range b.Instrs {
+			call, ok := in.(*ssa.Call)
+			if !ok {
+				continue
+			}
+			cn := CalleeName(&call.Call)
+			if !(strings.HasSuffix(cn, "Writer.WriteString") || strings.HasSuffix(cn, "Writer.Write")) || len(call.Call.Args) < 2 {
+				continue
+			}
+			arg := call.Call.Args[1]
+			// a piece cut at the next special character
+			if sl, ok := arg.(*ssa.Slice); ok && sl.High != nil && isField(sl.X, 0) {
+				n++
+				okPiece := false
+				var fromSearch func(v ssa.Value, depth int) bool
+				fromSearch = func(v ssa.Value, depth int) bool {
+					if depth > 4 {
+						return false
+					}
+					switch x := v.(type) {
+					case *ssa.Call:
+						cn := CalleeName(&x.Call)
+						if strings.HasPrefix(cn, "strings.Index") {
+							return true
+						}
+						if bi, ok := x.Call.Value.(*ssa.Builtin); ok && bi.Name() == "len" {
+							return true
+						}
+					case *ssa.Phi:
+						for _, e := range x.Edges {
+							if !fromSearch(e, depth+1) {
+								return false
+							}
+						}
+						return true
+					}
+					return false
+				}
+				okPiece = fromSearch(sl.High, 0)
+				r.Check(okPiece, "R01.3f", fmt.Sprintf("piece write #%d", n), c.Rel(call.Pos()), "cut at the next special character",
+					"the CSV writer writes a piece of the field whose end is not the position of the next special character (or the end of the field): a quote inside the piece goes out undoubled")
+				continue
+			}
+			if !containsField(arg, 0) {
+				continue
+			}
+			n++
+			// whole field: must lie on the edge where fieldNeedsQuotes(field) is false
+			guarded := false
+			for _, g := range GuardsAt(b) {
+				if g.Polarity {
+					continue
+				}
+				vals := []ssa.Value{g.Cond}
+				if phi, ok := g.Cond.(*ssa.Phi); ok {
+					vals = phi.Edges
+				}
+				for _, v := range vals {
+					if nc, ok := v.(*ssa.Call); ok && nc.Call.StaticCallee() == need {
+						guarded = true
+					}
+				}
+			}
+			r.Check(guarded, "R01.3f", fmt.Sprintf("whole-field write #%d", n), c.Rel(call.Pos()), "on the edge where the field needs no quotes",
+				"the CSV writer sends the whole text of a field to the output on a path where fieldNeedsQuotes(field) is not known to be false: a quote, separator or line break inside it goes out unprotected (a field wrapped in quotes as a whole keeps its embedded quotes undoubled)")
+		}
+	}
+	r.Floor("R01.3f", "writes of field text in the CSV writer", n, 2)
 }
